@@ -1,7 +1,6 @@
 package props
 
 import (
-	"bytes"
 	"fmt"
 	"os"
 	"path/filepath"
@@ -81,8 +80,7 @@ func c10Check(c c10Case, rec *evid.Recorder) *Fail {
 			return failf("token %d %v: bytes %q between it and its predecessor are not white space/comments (skipped input)\nsrc %q", i, t, src[prevEnd:s], src)
 		}
 		if i > 0 || s > 0 {
-			loneCR := !hasNL && bytes.IndexByte(src[prevEnd:s], '\r') >= 0
-			if t.AfterNewline != hasNL && !loneCR { // a lone CR may or may not count as a line break
+			if t.AfterNewline != hasNL { // LF, CR LF and a lone CR are line breaks
 				return failf("token %d %v: AfterNewline=%v but the gap %q %s a line break\nsrc %q", i, t, t.AfterNewline, src[prevEnd:s], map[bool]string{true: "contains", false: "does not contain"}[hasNL], src)
 			}
 		} else if t.AfterNewline {
